@@ -43,7 +43,7 @@ META = {
     "text": "For each of 25 computational opcodes a theorem states that the Int/math-big model of the Go op* function equals the Yellow-Paper BitVec 256 "
             "semantics for ALL operands (SAR: all operands except shift>=256 of zero, with the negation proved on the witness); gas functions "
             "(memory, EXP, SHA3, copy, log, create, callGas, toWordSize) equal the Nat formulas with overflow only beyond 2^60 gas "
-            "(memoryGasCost: except the uint64 wrap range 2^37..2^40 bytes, witness proved); codeBitmap/has = 'JUMPDEST outside PUSH data' "
+            "(memoryGasCost and the whole memory-growth chain: for every operand pair except exactly the uint64 wrap range 2^37..2^40 bytes, witness proved); codeBitmap/has = 'JUMPDEST outside PUSH data' "
             "for every code and every 256-bit destination; the five instruction sets dumped from the compiled program equal the hand-written "
             "specification tables (valid opcodes, stack arities, constant gas tiers, flags) and NewInterpreter's switch selects the prescribed "
             "table for every configuration and height; and the whole-program theorem run_refines_spec_partial: for every code, call data, epoch "
